@@ -1045,7 +1045,8 @@ class Trimesh(Geometry3D):
             self.edges_sparse, directed=False, return_labels=True
         )
         self._cache["vertices_component_label"] = labels
-        return count
+        # a vertex which no face refers to is not a body of the mesh
+        return len(np.unique(labels[self.referenced_vertices]))
 
     @cache_decorator
     def faces_unique_edges(self) -> NDArray[int64]:
